@@ -100,10 +100,14 @@ def run(report):
                 b = f.bounded
                 report.add_bounded(f.qual, f"decorated function at {b['accepted']} seeded random magnitudes x unit prefixes, "
                                            f"law residual <= {calc.REL_TOL:g} relative ({b['refused']} points refused by the "
-                                           f"function); reason not proved: {f.reason[:300]}",
+                                           f"function, {b.get('ill_conditioned', 0)} ill-conditioned points skipped; positive "
+                                           f"magnitudes only); reason not proved: {f.reason[:300]}",
                                    b["accepted"], not b["failures"], b["failures"])
                 reasons[_bucket(f.reason)] += 1
                 new_demoted[f.qual] = {"class": "bounded", "reason": f.reason[:300]}
+            elif f.klass == "bounded_length":
+                b = f.bounded
+                report.add_bounded(f.qual, f.reason, b["accepted"], not b["failures"], b["failures"])
             elif f.klass == "out_of_reach":
                 report.extend(f.obs)
                 report.add_out_of_reach(f.qual, f.reason[:400])
